@@ -221,6 +221,7 @@ def run(ctx):
         cases.append({"id": len(cases), "op": "lsp.history", "files": files, "events": []})
     impl = ctx.impl(cases, timeout=3000, procs=6)
     pending = []
+    orphaned = []
     for c in cases:
         r = impl[c["id"]]
         o = r.get("out") or {}
@@ -232,12 +233,17 @@ def run(ctx):
             ctx.brk("lsp.history harness", desc, o, None)
             continue
         if not o.get("idle") or not o.get("freshIdle"):
-            ctx.fail("the server did not become idle within the deadline", desc, None, {"idle": o.get("idle"), "fresh": o.get("freshIdle")})
+            fin = final_contents(c)
+            parseable = [f for f in fin if f.endswith(".rego") and not f.startswith("ignored/") and not is_broken(fin[f])]
+            known = None
+            if o.get("idle") and not parseable and not any((o.get("fresh") or {}).values()):
+                known = "C15-no-parseable-module-nothing-published"
+            ctx.fail("the server did not become idle within the deadline", desc, known, {"idle": o.get("idle"), "fresh": o.get("freshIdle")})
             continue
         # the invariant of the LspCache model (theorem cache_never_outlives_file) on the real cache at quiescence
         if o.get("orphanModules") or o.get("orphanAggregates"):
-            ctx.fail("at quiescence the server's cache holds a module / aggregate data of a file that is not in the workspace",
-                     desc, None, {"modules": o.get("orphanModules"), "aggregates": o.get("orphanAggregates")})
+            orphaned.append((c, desc, {"cache holds data of a removed file": {"modules": o.get("orphanModules"),
+                                                                             "aggregates": o.get("orphanAggregates")}}))
         pub, fresh = o["published"], o["fresh"]
         # every configuration used here ignores the directory ignored/: nothing may stay published for a file in it,
         # neither by the server that lived through the history nor by the freshly started reference server
@@ -267,6 +273,7 @@ def run(ctx):
             alt.append({"id": len(alt), "op": "lsp.history", "files": files, "events": [], "_for": c["id"], "_broken": broken})
     altres = ctx.impl(alt, timeout=3000, procs=6) if alt else {}
     altby = {}
+    unexplained = []
     for a in alt:
         altby.setdefault(a["_for"], []).append((a, altres[a["id"]].get("out") or {}))
     for (c, desc, diff, pub) in pending:
@@ -279,18 +286,51 @@ def run(ctx):
                                    for d in diff.values() for x in d["missing"] + d["extra"]):
             known = "C15-config-change-keeps-old-aggregates"
         final = final_contents(c)
-        linted = [f for f in final if f.endswith(".rego") and not f.startswith("ignored/")]
+        linted = [f for f in final if f.endswith(".rego") and not f.startswith("ignored/") and not is_broken(final[f])]
         aggcodes = AGG | {"impossible-not"}
-        if known is None and len(linted) <= 1 and all(
-                not d["missing"] and all(x.split("@")[0] in aggcodes for x in d["extra"]) for d in diff.values()):
-            known = "C15-single-file-workspace-no-aggregates"
-        if known is None and all(f.lstrip("/") not in final and d["published"] and not d["fresh"] for f, d in diff.items()):
-            known = "C15-removed-uri-republished-by-inflight-job"
+        if known is None:
+            r1 = r2 = 0
+            for f, d in diff.items():
+                if f.lstrip("/") not in final and d["published"] and not d["fresh"]:
+                    r2 += 1
+                elif len(linted) <= 1 and not d["missing"] and all(x.split("@")[0] in aggcodes for x in d["extra"]):
+                    r1 += 1
+                else:
+                    r1 = r2 = -10 ** 6
+            if r1 > 0:
+                known = "C15-single-file-workspace-no-aggregates"
+            elif r2 > 0:
+                known = "C15-removed-uri-republished-by-inflight-job"
         for a, ao in (altby.get(c["id"], []) if known is None else []):
             if ao.get("idle") and "published" in ao:
                 skip = {"/" + f for f in a["_broken"]}
                 if all(pub.get(f, []) == ao["published"].get(f, []) for f in (set(pub) | set(ao["published"])) - skip):
                     known = "C15-parse-error-keeps-stale-aggregates"
                     break
-        ctx.fail("published diagnostics at quiescence differ from a fresh lint of the final workspace", desc, known, diff)
+        if known is None:
+            unexplained.append((c, desc, diff))
+        else:
+            ctx.fail("at quiescence the server's state differs from a fresh lint of the final workspace (published diagnostics / cache)",
+                 desc, known, diff)
+    # finding C15-burst-races, operational classifier: the same history with every pause stretched to >= 700 ms converges
+    unexplained += orphaned
+    paced = []
+    for (c, desc, diff) in unexplained:
+        evs = [dict(e, pauseMs=max(e.get("pauseMs") or 0, 700)) for e in c["events"]]
+        paced.append({"id": len(paced), "op": "lsp.history", "files": c["files"], "events": evs})
+    pres = ctx.impl(paced, timeout=3000, procs=6) if paced else {}
+    for k, (c, desc, diff) in enumerate(unexplained):
+        o = pres[k].get("out") or {}
+        known = None
+        if o.get("idle") and o.get("freshIdle") and "published" in o:
+            same = True
+            for f in set(o["published"]) | set(o["fresh"]):
+                a, b = o["published"].get(f, []), (o["fresh"].get(f, []) if f in o["files"] else [])
+                if a != b:
+                    same = False
+            if same and not o.get("orphanModules") and not o.get("orphanAggregates"):
+                known = "C15-burst-races"
+                ctx.count("burst-race")
+        ctx.fail("at quiescence the server's state differs from a fresh lint of the final workspace (published diagnostics / cache)",
+                 desc, known, diff)
     ctx.sample({"events": cases[0]["events"], "published": (impl[0].get("out") or {}).get("published")})
